@@ -5,7 +5,9 @@
     run that the tree under test has this rule and reports the history of finding F1 as a violation otherwise):
       [g]   any variable graph, [WF g] = what dag.py must deliver (C15's subject; computed by [wf_b] on every graph of the tie),
       [sm]  what torch does on values ([put_val], [mix]); [F_mix g sm] = per-individual node functions commute with the
-            row-wise selection of a partial revert (only used when the history contains a partial revert),
+            row-wise selection of a partial revert (only used when the history contains a partial revert); the executable
+            instance of the tie and of the examples is [xsem_where], the [torch.where] selection of State.revert(subset)
+            since commit fe0cadd (recognised by the harness on every run, like the fork rule),
       [MaskDisciplined g sm s ops] = the documented precondition of partial reverts, and nothing else: every
             [RevertMask] of the history is applied while each doubly cached node of the forked sub-graph carries the
             individual axis.  Histories are otherwise arbitrary (in particular assignments with auto-fork switched off
@@ -112,19 +114,26 @@ Print Assumptions C01_clone_copies.
     a 21-operation history on the diamond (forked assignments, reads, a partial revert that mixes rows, an un-forked
     assignment over a pending fork followed by a full and a partial revert — both refused —, a clone, an accepted
     revert on the clone) meets the precondition and its reads are the fresh values; the history of the former
-    finding F1 meets the precondition, its revert is refused and its last read is the fresh 2 + 20. *)
+    finding F1 meets the precondition, its revert is refused and its last read is the fresh 2 + 20; a per-individual
+    revert whose discarded side is NaN (y = log2 x, x = [-1, 4] rejected for individual 0) leaves the fresh y = [0, 2]. *)
 Theorem C01_examples :
   WF (mk_graph test_state_nodes) /\ WF (mk_graph diamond_nodes) /\ WF (mk_graph f1_nodes) /\
-  (MaskDisciplined (mk_graph diamond_nodes) xsem (init_store (mk_graph diamond_nodes)) (now_ops ++ [Get 1 3; Revert 1]) /\
+  (MaskDisciplined (mk_graph diamond_nodes) xsem_where (init_store (mk_graph diamond_nodes)) (now_ops ++ [Get 1 3; Revert 1]) /\
    nth_error (outs_of (mk_graph diamond_nodes) now_ops) 6 = Some Done /\
    nth_error (outs_of (mk_graph diamond_nodes) now_ops) 13 = Some (Err InputError) /\
    nth_error (outs_of (mk_graph diamond_nodes) now_ops) 14 = Some (Err InputError) /\
-   read_of (mk_graph diamond_nodes) xsem true now_ops 0 3 = Ok (XS (AFin 213)) /\
-   fresh_of (mk_graph diamond_nodes) xsem true now_ops 0 3 = Some (Some (XS (AFin 213))) /\
-   read_of (mk_graph diamond_nodes) xsem true (now_ops ++ [Get 1 3; Revert 1]) 1 3 = Ok (XS (AFin 213))) /\
-  (MaskDisciplined (mk_graph f1_nodes) xsem (init_store (mk_graph f1_nodes)) f1_ops /\
+   read_of (mk_graph diamond_nodes) xsem_where true now_ops 0 3 = Ok (XS (AFin 213)) /\
+   fresh_of (mk_graph diamond_nodes) xsem_where true now_ops 0 3 = Some (Some (XS (AFin 213))) /\
+   read_of (mk_graph diamond_nodes) xsem_where true (now_ops ++ [Get 1 3; Revert 1]) 1 3 = Ok (XS (AFin 213))) /\
+  (MaskDisciplined (mk_graph f1_nodes) xsem_where (init_store (mk_graph f1_nodes)) f1_ops /\
    nth_error (outs_of (mk_graph f1_nodes) f1_ops) 7 = Some (Err InputError) /\
-   read_of (mk_graph f1_nodes) xsem true f1_ops 0 2 = Ok (XS (AFin 22)) /\
-   fresh_of (mk_graph f1_nodes) xsem true f1_ops 0 2 = Some (Some (XS (AFin 22)))).
-Proof. split; [exact test_state_wf | split; [exact diamond_wf | split; [exact f1_wf | split; [exact now_disciplined | exact f1_now]]]]. Qed.
+   read_of (mk_graph f1_nodes) xsem_where true f1_ops 0 2 = Ok (XS (AFin 22)) /\
+   fresh_of (mk_graph f1_nodes) xsem_where true f1_ops 0 2 = Some (Some (XS (AFin 22)))) /\
+  (WF (mk_graph nf_nodes) /\
+   MaskDisciplined (mk_graph nf_nodes) xsem_where (init_store (mk_graph nf_nodes)) nf_ops /\
+   nth_error (outs_of (mk_graph nf_nodes) nf_ops) 4 = Some (Ok (XP [ANaN; AFin 2])) /\
+   nth_error (outs_of (mk_graph nf_nodes) nf_ops) 5 = Some Done /\
+   read_of (mk_graph nf_nodes) xsem_where true nf_ops 0 1 = Ok (XP [AFin 0; AFin 2]) /\
+   fresh_of (mk_graph nf_nodes) xsem_where true nf_ops 0 1 = Some (Some (XP [AFin 0; AFin 2]))).
+Proof. split; [exact test_state_wf | split; [exact diamond_wf | split; [exact f1_wf | split; [exact now_disciplined | split; [exact f1_now | exact nonfinite_now]]]]]. Qed.
 Print Assumptions C01_examples.
